@@ -237,7 +237,7 @@ func (e *Engine) checkProperty(prop string, o runOpts) int {
 					rn++
 					go func(c *Ctx, g *Goal) {
 						rsem <- struct{}{}
-						discharge(c, []*Goal{g}, dischargeOpts{Timeout: 3 * o.Timeout, All: o.All, Workdir: o.Workdir, Par: 1, Split: true})
+						discharge(c, []*Goal{g}, dischargeOpts{Timeout: 3 * o.Timeout, All: o.All, Workdir: o.Workdir, Par: 1, Split: true, SplitTimeout: o.Timeout})
 						g.Retried = true
 						<-rsem
 						rdone <- struct{}{}
